@@ -1,0 +1,21 @@
+//go:build verif
+
+// Contracts for package encoding, checked by /verif (govc). Comment-only.
+package encoding
+
+// ---------------------------------------------------------------------------------------------
+// C11: decoding a peer's snappy frame allocates at most a constant multiple of the frame's size: the
+// length declared in the header is checked against the input size before the buffer is grown.
+//@ ghost lastGrow Int stable
+//@ package slices
+//@ func Grow
+//@   sets lastGrow = arg1
+//@ package github.com/golang/snappy
+//@ func DecodedLen
+//@   modifies nothing
+//@   ensures result1 == nil ==> result0 >= 0
+//@ func Decode
+//@   modifies object arg0 kinds uint8
+//@ package github.com/anyproto/any-sync/net/rpc/encoding
+//@ func (snappyEncoding).Unmarshal
+//@   ensures [allocation_bounded_by_input] lastGrow == old(lastGrow) || (0 <= lastGrow && lastGrow <= 32 * len(buf))
